@@ -298,6 +298,10 @@ impl StreamsState {
             return Ok(ShouldTransmit(false));
         }
 
+        // The application is not notified of data on a stopped stream, but the stream still counts
+        // as opened by the peer
+        self.on_stream_frame(false, id);
+
         // Stopped streams become closed instantly on FIN, so check whether we need to clean up
         if closed {
             let rs = self.recv.remove(&id).flatten().unwrap();
